@@ -47,6 +47,10 @@ def step_conserves_sum(ctx, cfg, margin):
             ctx.eq(f"grid_sum_conserved[{i}]", _sum(w1[i]), _sum(w0[i]))
 
 
+# heavy scenarios: a data-dependent branch introduced into the step forks them; keep the exploration bound small
+step_conserves_sum.max_paths = 4
+
+
 def schedule(chk):
     cfgs = [
         (dict(kind="ns2d", shape=(15, 16), forcing=True, free_stream=True, width=2), 6),
